@@ -934,6 +934,192 @@ def parse_module_ctx(text: str) -> tuple[Any, Any]:
 # C16: affine programs (lower-affine) and symref programs (frontend-desymrefy)
 # ------------------------------------------------------------------------------------------------
 
+# -- affine expressions as plain trees: ("c", v) | ("d", p) | ("s", p) | (kind, l, r), kind ∈ AFF_KINDS ------
+
+AFF_KINDS = ("+", "*", "mod", "floordiv", "ceildiv")
+
+
+def aff_text(e: tuple) -> str:
+    """text of the expression inside `affine_map<… -> (…)>`"""
+    if e[0] == "c":
+        return str(e[1])
+    if e[0] in ("d", "s"):
+        return f"{e[0]}{e[1]}"
+    return f"({aff_text(e[1])} {e[0]} {aff_text(e[2])})"
+
+
+def aff_eval(e: tuple, dims: list[int], syms: list[int]) -> tuple[int, bool] | None:
+    """(value in the affine dialect, some `mod` had a negative left operand); None = undefined
+    (a `mod`/`floordiv`/`ceildiv` by a non-positive value).  Unbounded integers."""
+    if e[0] == "c":
+        return e[1], False
+    if e[0] == "d":
+        return dims[e[1]], False
+    if e[0] == "s":
+        return syms[e[1]], False
+    a, b = aff_eval(e[1], dims, syms), aff_eval(e[2], dims, syms)
+    if a is None or b is None:
+        return None
+    (x, nx), (y, ny) = a, b
+    neg = nx or ny
+    if e[0] == "+":
+        return x + y, neg
+    if e[0] == "*":
+        return x * y, neg
+    if y <= 0:
+        return None
+    if e[0] == "mod":
+        return x % y, neg or x < 0
+    if e[0] == "floordiv":
+        return x // y, neg
+    return -((-x) // y), neg
+
+
+def aff_prefix_of_xdsl(e: Any) -> str:
+    """prefix form (protocol of the Lean model `lower_affine`) of a parsed xDSL `AffineExpr` — the
+    tree the pass is given, after whatever the parser simplified"""
+    from xdsl.ir.affine import AffineBinaryOpExpr, AffineBinaryOpKind, AffineConstantExpr, AffineDimExpr, AffineSymExpr
+
+    if isinstance(e, AffineConstantExpr):
+        return str(e.value)
+    if isinstance(e, AffineDimExpr):
+        return f"d{e.position}"
+    if isinstance(e, AffineSymExpr):
+        return f"s{e.position}"
+    assert isinstance(e, AffineBinaryOpExpr)
+    k = {AffineBinaryOpKind.Add: "+", AffineBinaryOpKind.Mul: "*", AffineBinaryOpKind.Mod: "mod",
+         AffineBinaryOpKind.FloorDiv: "floordiv", AffineBinaryOpKind.CeilDiv: "ceildiv"}[e.kind]
+    return f"{k} {aff_prefix_of_xdsl(e.lhs)} {aff_prefix_of_xdsl(e.rhs)}"
+
+
+class AffineBindGen:
+    """Programs that show which SSA operand every dimension / symbol of an affine map is bound to.
+
+    kind "apply": one `affine.apply` whose map has `nd` dimensions and `ns` symbols (all shapes with
+    nd, ns ≤ 3) and mentions every one of them in a term with its own weight (powers of 16, random
+    signs; the inputs are small, so two different bindings of operands to positions give different
+    values); the operands are a permutation of the function arguments; the result is passed to an
+    external call and returned.  Terms may wrap the variable in `+ c`, `floordiv`/`ceildiv`/`mod` by a
+    positive constant; the sum is associated at random.
+    kind "mem": a non-square 2-D memref filled with distinct values, then `affine.store` / `affine.load`
+    through two-result maps that permute / offset the index operands.
+    The programs carry their own input vectors (`vecs`: distinct small values; non-negative when the
+    map contains `mod`, in bounds for "mem")."""
+
+    def __init__(self, rng: Any):
+        self.rng = rng
+
+    def linear(self, nd: int, ns: int, allow_mod: bool = True) -> tuple:
+        r = self.rng
+        leaves = [("d", i) for i in range(nd)] + [("s", i) for i in range(ns)]
+        ws = [16 ** i for i in range(len(leaves))]
+        r.shuffle(ws)
+        terms: list[tuple] = []
+        for leaf, w in zip(leaves, ws):
+            x: tuple = leaf
+            k = r.random()
+            if k < 0.15:
+                x = ("+", x, ("c", r.choice([1, 2, -1])))
+            elif k < 0.25:
+                x = (r.choice(["floordiv", "ceildiv"]), x, ("c", r.choice([2, 3])))
+            elif k < 0.32 and allow_mod:
+                x = ("mod", x, ("c", r.choice([5, 7, 11])))
+            w = w if r.random() < 0.75 else -w
+            terms.append(("*", x, ("c", w)) if r.random() < 0.8 or w < 0 else ("*", ("c", w), x))
+        if r.random() < 0.4 or not terms:
+            terms.append(("c", r.choice([0, 1, 3, -5])))
+        r.shuffle(terms)
+        while len(terms) > 1:
+            i = r.randrange(len(terms) - 1)
+            terms[i:i + 2] = [("+", terms[i], terms[i + 1])]
+        return terms[0]
+
+    def program(self) -> dict[str, Any]:
+        return self.mem_program() if self.rng.random() < 0.25 else self.apply_program()
+
+    def random_expr(self, nd: int, ns: int, depth: int) -> tuple:
+        """any expression over the given dimensions / symbols (constants on the right of * mod floordiv ceildiv)"""
+        r = self.rng
+        leaves = [("d", i) for i in range(nd)] + [("s", i) for i in range(ns)]
+        if depth <= 0 or r.random() < 0.2:
+            if leaves and r.random() < 0.85:
+                return r.choice(leaves)
+            return ("c", r.choice([0, 1, 2, 3, 5, 7, -1, -3]))
+        k = r.choice(["+", "+", "+", "*", "mod", "floordiv", "ceildiv"])
+        a = self.random_expr(nd, ns, depth - 1)
+        if k == "+":
+            return ("+", a, self.random_expr(nd, ns, depth - 1))
+        if k == "*":
+            return ("*", a, ("c", r.choice([2, 3, -1, -2, 4])))
+        return (k, a, ("c", r.choice([1, 2, 3, 4, 5, 8])))
+
+    def apply_program(self, shape: tuple[int, int] | None = None, e: tuple | None = None) -> dict[str, Any]:
+        r = self.rng
+        nd, ns = shape or r.choice([(a, b) for a in range(4) for b in range(4) if a + b])
+        k = nd + ns
+        e = e or self.linear(nd, ns)
+        has_mod = " mod " in aff_text(e)
+        nargs = k + (1 if r.random() < 0.3 else 0)
+        order = r.sample(range(nargs), k)                      # operand j of the apply is %a{order[j]}
+        dims = ", ".join(f"d{i}" for i in range(nd))
+        syms = "[" + ", ".join(f"s{i}" for i in range(ns)) + "]" if ns else ""
+        lines = [f'  %v = "affine.apply"({", ".join(f"%a{i}" for i in order)}) <{{"map" = affine_map<({dims}){syms} -> ({aff_text(e)})>}}> : ({", ".join(["index"] * k)}) -> index',
+                 "  func.call @ext_index(%v) : (index) -> ()"]
+        sig = ", ".join(f"%a{i}: index" for i in range(nargs))
+        text = ("builtin.module {\nfunc.func @main(" + sig + ") -> (index) {\n" + "\n".join(lines)
+                + "\n  func.return %v : index\n}\nfunc.func private @ext_index(index) -> ()\n}\n")
+        vecs = [r.sample(range(0, 13), nargs) for _ in range(3)]
+        vecs.append(r.sample(range(0 if has_mod else -6, 13), nargs))
+        return {"text": text, "arg_types": ["index"] * nargs, "ret_types": ["index"], "vecs": vecs,
+                "expr": e, "shape": (nd, ns), "order": order}
+
+    def mem_program(self) -> dict[str, Any]:
+        r = self.rng
+        R, C = r.choice([(2, 3), (3, 2), (2, 4), (4, 3), (3, 5)])
+        ty = f"memref<{R}x{C}xindex>"
+
+        def access(x: str, y: str, ox: int, oy: int) -> tuple[str, str]:
+            """(operands, map) addressing cell [x + ox, y + oy]"""
+            ex = f"(d{{}} + {ox})" if ox else "d{}"
+            ey = f"(d{{}} + {oy})" if oy else "d{}"
+            if r.random() < 0.5:
+                return f"{x}, {y}", f"affine_map<(d0, d1) -> ({ex.format(0)}, {ey.format(1)})>"
+            return f"{y}, {x}", f"affine_map<(d0, d1) -> ({ex.format(1)}, {ey.format(0)})>"
+
+        ox, oy = r.choice([0, 0, 1]), r.choice([0, 0, 1])
+        sx, sy = r.choice([0, 1]), r.choice([0, 1])
+        so, sm = access("%a0", "%a1", sx, sy)
+        lo, lm = access("%a0", "%a1", ox, oy)
+        lo2, lm2 = access("%a1", "%a0", 0, 0)        # cell [a1, a0]: in bounds only for small values (else the source is undefined → excluded)
+        lines = [
+            f'  %m = "memref.alloc"() <{{operandSegmentSizes = array<i32: 0, 0>}}> : () -> {ty}',
+            f'  "affine.for"() <{{"lowerBoundMap" = affine_map<() -> (0)>, "upperBoundMap" = affine_map<() -> ({R})>, "step" = 1 : index, operandSegmentSizes = array<i32: 0, 0, 0>}}> ({{',
+            "  ^b0(%i: index):",
+            f'    "affine.for"() <{{"lowerBoundMap" = affine_map<() -> (0)>, "upperBoundMap" = affine_map<() -> ({C})>, "step" = 1 : index, operandSegmentSizes = array<i32: 0, 0, 0>}}> ({{',
+            "    ^b1(%j: index):",
+            '      %c = "affine.apply"(%i, %j) <{"map" = affine_map<(d0, d1) -> (((d0 * 10) + d1) + 100)>}> : (index, index) -> index',
+            f'      "affine.store"(%c, %m, %i, %j) <{{"map" = affine_map<(d0, d1) -> (d0, d1)>}}> : (index, {ty}, index, index) -> ()',
+            '      "affine.yield"() : () -> ()',
+            "    }) : () -> ()",
+            '    "affine.yield"() : () -> ()',
+            "  }) : () -> ()",
+            f'  "affine.store"(%a2, %m, {so}) <{{"map" = {sm}}}> : (index, {ty}, index, index) -> ()',
+            f'  %l = "affine.load"(%m, {lo}) <{{"map" = {lm}}}> : ({ty}, index, index) -> index',
+            "  func.call @ext_index(%l) : (index) -> ()",
+        ]
+        rets = ["%l"]
+        if r.random() < 0.3:
+            lines.append(f'  %l2 = "affine.load"(%m, {lo2}) <{{"map" = {lm2}}}> : ({ty}, index, index) -> index')
+            rets.append("%l2")
+        text = ("builtin.module {\nfunc.func @main(%a0: index, %a1: index, %a2: index) -> (" + ", ".join(["index"] * len(rets)) + ") {\n"
+                + "\n".join(lines) + "\n  func.return " + ", ".join(rets) + " : " + ", ".join(["index"] * len(rets))
+                + "\n}\nfunc.func private @ext_index(index) -> ()\n}\n")
+        mx, my = max(ox, sx), max(oy, sy)
+        cells = [(x, y) for x in range(R - mx) for y in range(C - my)]
+        vecs = [[x, y, r.randint(-9, 9)] for x, y in r.sample(cells, min(4, len(cells)))]
+        return {"text": text, "arg_types": ["index"] * 3, "ret_types": ["index"] * len(rets), "vecs": vecs}
+
+
 class AffineGen:
     """func with affine.for (constant bounds, iter_args, nesting), affine.apply over random
     expressions (add, mul/mod/floordiv/ceildiv by constants), affine.load/store on one small static
@@ -949,7 +1135,7 @@ class AffineGen:
 
     def expr(self, nd: int, ns: int, depth: int) -> str:
         r = self.rng
-        leaves = [f"d{i}" for i in range(nd)] * 2 + [f"s{i}" for i in range(ns)]
+        leaves = [f"d{i}" for i in range(nd)] + [f"s{i}" for i in range(ns)]
         if depth <= 0 or r.random() < 0.25:
             if leaves and r.random() < 0.8:
                 return r.choice(leaves)
@@ -963,14 +1149,22 @@ class AffineGen:
         c = r.choice([1, 2, 3, 4, 5, 8]) if r.random() < 0.95 else r.choice([0, -2])
         return f"({a} {k} {c})"
 
+    # (num_dims, num_symbols) of an affine.apply map: every shape up to 3 + 3, unequal counts favoured
+    # (the split of the operand list into dims and symbols only shows when the counts differ)
+    SHAPES = [(nd, ns) for nd in range(4) for ns in range(4) if nd + ns] + [(2, 1), (1, 2), (0, 1), (0, 2), (3, 1), (1, 3), (1, 0), (2, 0)]
+
     def apply(self, pool: list[str], lines: list[str], ind: str) -> str:
         r = self.rng
-        nd, ns = r.randint(0, 2), r.randint(0, 1)
-        if nd + ns == 0:
-            nd = 1
+        nd, ns = r.choice(self.SHAPES)
         e = self.expr(nd, ns, r.randint(1, 3))
-        ds = [r.choice(pool) for _ in range(nd)]
-        ss = [r.choice(pool) for _ in range(ns)]
+        if r.random() < 0.5:
+            # mention every dimension and symbol, each with its own weight
+            ws = r.sample([2, 3, 5, 7, 11, -4, 16, -9], nd + ns)
+            for leaf, w in zip([f"d{i}" for i in range(nd)] + [f"s{i}" for i in range(ns)], ws):
+                e = f"({e} + ({leaf} * {w}))" if r.random() < 0.5 else f"(({leaf} * {w}) + {e})"
+        # distinct operands where the pool allows (a mis-bound operand is invisible when both are the same value)
+        opnds = r.sample(pool, nd + ns) if len(pool) >= nd + ns and r.random() < 0.8 else [r.choice(pool) for _ in range(nd + ns)]
+        ds, ss = opnds[:nd], opnds[nd:]
         dims = ", ".join(f"d{i}" for i in range(nd))
         syms = "[" + ", ".join(f"s{i}" for i in range(ns)) + "]" if ns else ""
         v = self.fresh()
